@@ -68,6 +68,23 @@ def rule_U7(run, prog):
     if n < 1:
         raise AnalysisError("no self-protecting method with units-managed reads found (FrequencyAxis.get_TimeAxis "
                             "was confirmed by hand)")
+    # reads of the managed properties of an object the code has itself typed as a FrequencyAxis
+    nt = 0
+    for m_ in sorted(prog.modules.values(), key=lambda x: x.relpath):
+        fs = list(m_.functions.values()) + [f for c in m_.classes.values() for f in c.methods.values()]
+        for fn in fs:
+            total, bad = unitflow.typed_unprotected_reads(prog, fn)
+            if not total:
+                continue
+            nt += 1
+            prog.consulted.add(fn.relpath)
+            run.obligation(rid, fn.short, not bad, key="typed-reads",
+                           message="%s reads %s of an object it has established to be a FrequencyAxis outside "
+                                   "energy_units('int'): the number is in the caller's units and scales a result that "
+                                   "is stored without units" % (fn.short, sorted({norm(x) for x in bad})),
+                           loc=fn.loc(bad[0]) if bad else fn.loc(), sample={"function": fn.short, "typed_reads": total})
+    if nt < 2:
+        raise AnalysisError("typed units-managed reads: only %d functions found (2 confirmed)" % nt)
 
 
 def _module_level_functions(prog):
